@@ -17,14 +17,28 @@ RULE = ("configurations = serial-number model tags (quick: one per predicate-equ
 ASSUMPTIONS = ["an inverter refuses a read iff it touches a refused register range (address-range semantics of real firmware)",
                "which optional blocks a model offers is derived by the oracle from the tag lists of goodwe.model (data) and the "
                "thresholds stated in the property (15 kW / 25 kW)"]
-MUST = ["configs_run", "keys_equal_checked", "fallback_battery", "fallback_battery2", "fallback_meter_ext2", "fallback_meter_ext",
+MUST = ["battery_toggle_checked", "configs_run", "keys_equal_checked", "fallback_battery", "fallback_battery2", "fallback_meter_ext2", "fallback_meter_ext",
         "fallback_mppt", "first_call_failed_second_ok", "presence_checked", "dt_meter_refused", "es_configs"]
 EXHAUSTIVE = {"quick": False, "thorough": True}
 
 
 def check_config(cfg, part, port=8899):
     g = env.goodwe()
-    res = configs.run_config(cfg, ncalls=3, port=port)
+    toggled = {}
+
+    async def battery_toggle(inv, sim, loop, res_):
+        """history: the battery disappears for one poll and comes back (or the other way round)"""
+        if cfg["family"] != "ET":
+            return
+        for mode in ((0, 2) if cfg["battery"] else (2, 0, 3)):
+            sim.regs[35184] = mode
+            try:
+                data = await inv.read_runtime_data()
+                toggled[mode] = (set(data), {s.id_ for s in inv.sensors()})
+            except g.exceptions.RequestRejectedException:
+                toggled[mode] = None
+
+    res = configs.run_config(cfg, ncalls=3, port=port, extra=battery_toggle)
     run = res["run"]
     part.evaluations += 1
     part.count("configs_run")
@@ -58,6 +72,18 @@ def check_config(cfg, part, port=8899):
                 part.violate(f"C15/{fam}/{'supported-block-missing' if want else 'refused-block-present'}/{rid}",
                              f"{tag}: '{rid}' is {'present' if have else 'absent'} in the result although its block is "
                              f"{'offered and served' if want else 'refused or not offered'}", case)
+    for mode, tv in toggled.items():
+        if tv is None:
+            continue
+        keys, ids = tv
+        part.count("battery_toggle_checked")
+        if keys != ids:
+            part.violate(f"C15/{fam}/keys-differ-from-sensors", f"{tag}: after battery_mode changed to {mode}: {len(keys)} keys vs {len(ids)} ids "
+                         f"(only in result {sorted(keys - ids)[:3]}, only in sensors() {sorted(ids - keys)[:3]})", case)
+        want = bool(mode) and "battery" not in cfg["refused"]
+        if ("battery_soc" in keys) != want:
+            part.violate(f"C15/{fam}/{'supported-block-missing' if want else 'refused-block-present'}/battery_soc",
+                         f"{tag}: after battery_mode changed to {mode} 'battery_soc' is {'present' if 'battery_soc' in keys else 'absent'}", case)
     if fam == "ET":
         for b in cfg["refused"]:
             part.count({"battery": "fallback_battery", "battery2": "fallback_battery2", "meter_ext2": "fallback_meter_ext2",
